@@ -66,7 +66,7 @@ def to_coq(e):
         return "(VList [" + "; ".join(to_coq(x) for x in e[1]) + "])"
     if t == "tuple":
         return "(VTuple [" + "; ".join(to_coq(x) for x in e[1]) + "])"
-    if t == "path":
+    if t in ("path", "ppath"):       # ppath: a concrete pathlib.Path (a PurePosixPath for dds_hash)
         return f'(VPath (hx "{e[1]}"))'
     if t in ("dict", "odict"):
         return "(VDict [" + "; ".join(f"({to_coq(k)}, {to_coq(v)})" for (k, v) in e[1]) + "])"
@@ -115,7 +115,7 @@ def canon(e):
         return ("int", int(e[1]))
     if t == "float":
         return ("float", e[1])
-    if t in ("str", "strbad", "path"):
+    if t in ("str", "strbad", "path", "ppath"):
         return ("text", e[1])
     if t == "date":
         return ("text", e[1].encode().hex())
